@@ -82,6 +82,15 @@ def run(repo, rep, tier):
     printed_prefix_rule(repo, rep)
     from .c13 import no_memoised_parsers
     no_memoised_parsers(repo, rep, 'C07.R10', OBJ)
+    # the error messages on the parse path can be built: a message whose
+    # format template already contains the (brace-carrying) key text makes
+    # _format() raise KeyError / IndexError instead of the ValueError the
+    # parser - and the CIMDateTime probe inside _kbstr_to_cimval - rely on
+    r11 = rep.rule('C07.R11', 'error messages on the URI parse path can be '
+                   'built (constant, well-formed format templates)')
+    from ..guards import run_format_rule
+    run_format_rule(repo, rep, r11, lambda f: f.file in (
+        OBJ, 'pywbem/_cim_types.py', 'pywbem/_utils.py'))
     inm = repo.cls(OBJ, 'CIMInstanceName')
     cnm = repo.cls(OBJ, 'CIMClassName')
 
